@@ -22,6 +22,7 @@ RULE = (
     "seeded call programs (advance(m) with m in {0,1,7,99,100,101,250,random} and take_step runs) on Gibbs, Metropolis, PCA, "
     "Hamiltonian and ensemble samplers in 1-4 dimensions with/without bounds; pools of 1-6 mixed chains (display on/off, "
     "unequal step cost) vs serial twins; run_for on a virtual clock with step costs 1e-6 s .. 600 s and budgets 1 s .. 3 days; "
+    "ParallelTempering.run_for on a virtual clock (swap_interval 1-400); a random-walk sampler written by the user on the MarkovChain base class; "
     "non-trivial = m not a multiple of 100 or a multi-call program; distinct = distinct (sampler, program)"
 )
 ASSUMPTIONS = [
